@@ -66,7 +66,7 @@ def check(prop, w, tier, t0):
     groups = [names[i::8] for i in range(8)]
     jobs = [(g, prep, None) for g in groups for prep in (False, True)]
     sd = lib.seed()
-    nrand = 6 if tier == "quick" else 60
+    nrand = 6 if tier == "quick" else 200
     jobs += [(None, j % 2 == 1, (nrand, sd * 100 + j)) for j in range(8 if tier == "quick" else 16)]
 
     def job(a):
